@@ -85,7 +85,7 @@ def fam_ring(tier):
     xps = [("a", "before"), ("a", "on"), ("a", "after"), ("b", "exit"), ("b", "enter"),
            ("c", "on"), ("__initial__", "enter")]
     sends = (("a",), ("b", "a"))
-    for mask in ("all", "sm-only", "one", "wrapped"):
+    for mask in ("all", "sm-only", "one", "wrapped", "async-wrappers"):
         out.append(("ring", mask, None, ("a",), None))
         out.append(("ring", mask, None, ("b", "c"), None))
         for (x, ph) in xps:
@@ -104,6 +104,9 @@ def ring_machine(mask):
             fl = "a"
         elif mask == "sm-only":
             fl = "a" if p == "sm" else ""
+        elif mask == "async-wrappers":
+            # every callback is an `async def` functools.wraps wrapper around a plain function
+            fl = "W"
         elif mask == "wrapped":
             # one real coroutine selects the async engine; every other callback is a plain
             # function that returns an awaitable
@@ -149,11 +152,17 @@ class Exec:
                     for oi, op in enumerate(ops):
                         msg = p.send(op[1], op[2], tag=op[3]) or self._left(f"send {op[1]}")
                         steps += 1
-                        if msg is None and self.twin is not None and p.last[1].kind == "ok" \
-                                and p.last[1].value != self.twin[oi]:
-                            msg = (f"send {op[1]}: result {p.last[1].value!r} differs from the "
-                                   f"synchronous twin's {self.twin[oi]!r} (same callbacks, other "
-                                   f"order)")
+                        if msg is None and self.twin is not None and p.last[1].kind == "ok":
+                            tres, torder = self.twin[oi]
+                            order = [(r.cid, r.tag) for r in p.impl.env.flat
+                                     if r.event != "__initial__"]
+                            if p.last[1].value != tres:
+                                msg = (f"send {op[1]}: result {p.last[1].value!r} differs from the "
+                                       f"synchronous twin's {tres!r} (same callbacks, other order)")
+                            elif order != torder:
+                                msg = (f"send {op[1]}: callbacks were started in the order "
+                                       f"{[c for c, _ in order]}, the synchronous twin calls them "
+                                       f"in the order {[c for c, _ in torder]}")
                         if msg:
                             break
             except Deadlock as e:
@@ -177,7 +186,8 @@ class Exec:
 
 
 def sync_twin_results(twin_built, ops, plan):
-    """Runs the scenario on the all-plain twin machine and returns each send's result."""
+    """Runs the scenario on the all-plain twin machine and returns, per send, its result and the
+    exact order in which the callbacks were called."""
     p = Pair(twin_built, Cfg("sync", True, False, "direct"), plan=plan)
     out = []
     if p.construct():
@@ -185,7 +195,8 @@ def sync_twin_results(twin_built, ops, plan):
     for op in ops:
         if p.send(op[1], op[2], tag=op[3]):
             return None
-        out.append(p.last[1].value if p.last[1].kind == "ok" else None)
+        out.append((p.last[1].value if p.last[1].kind == "ok" else None,
+                    [(r.cid, r.tag) for r in p.impl.env.flat]))
     return out
 
 
@@ -460,7 +471,10 @@ def run_one(res, sc, ms, tier, bound, only_driver=None, only=None):
         ops = [("send", ev, {}, f"e{i}") for i, ev in enumerate(hist)]
         twin_built = cached_build(("ring-twin",), lambda: ring3(asyn=False, provs=("sm", "L1")))
         try:
-            twin = sync_twin_results(twin_built, ops, Plan(rules=rules))
+            # (with a rule on the initial enter the lazy async activation legitimately shifts
+            # work from construction into the first send: no per-send twin comparison then)
+            twin = None if (rule and rule[0] == "__initial__") else \
+                sync_twin_results(twin_built, ops, Plan(rules=rules))
         except Ambiguous:
             twin = None
         for driver in DRIVERS:
